@@ -22,6 +22,7 @@ func propC01() *Property {
 			{ID: "R01.4", Floor: 2, Text: "runOutputOnceStream transmits with oLock held; closeWithError's direct transmission too", Run: r01_4},
 			{ID: "R01.5", Floor: 3, Text: "splitting loops are consume loops", Run: r01_5},
 			{ID: "R01.6", Floor: 3, Text: "dispatch key, single producer of recvQueue on TCP, no silent drop on a full queue", Run: r01_6},
+			{ID: "R01.11", Floor: 3, Text: "handshake parsers read the proxy connection itself, never through a read-ahead wrapper that is then dropped", Run: r01_11},
 			{ID: "R01.7", Floor: 5, Text: "Session.Read is a consume loop: copy(b[n:], src); n += copied; src[copied:] kept in unreadBuf; older tail before newer segment; under rLock", Run: r01_7},
 			{ID: "R01.8", Floor: 4, Text: "fragment sizes fit the length field (shared with R14.2)", Run: r14_2},
 			{ID: "R01.9", Floor: 4, Text: "implicit nonce progression identical on both sides (shared with R09.5)", Run: r09_5},
@@ -99,6 +100,22 @@ func r01_3(c *RC) {
 			c.OKH(key, in.Pos(), "%s with sendMutex held", what)
 		} else {
 			c.Bad(key, in.Pos(), "%s in StreamUnderlay.writeOneSegment without sendMutex held: two sessions multiplexed on the connection can interleave ciphertext or skew the implicit nonce counter", what)
+		}
+	})
+	// every look at the send cipher (is this the first write? which nonce?)
+	// is made under the lock as well
+	instrs(fn, func(_ *ssa.BasicBlock, _ int, in ssa.Instruction) {
+		u, ok := in.(*ssa.UnOp)
+		if !ok || u.Op != token.MUL {
+			return
+		}
+		if f, _ := fieldOfAddr(u.X); !sameField(f, send) {
+			return
+		}
+		if lockHeldAt(fn, in, sm) {
+			c.OK("send-cipher-read-under-sendMutex", in.Pos(), "t.send read with sendMutex held")
+		} else {
+			c.Bad("send-cipher-read-under-sendMutex", in.Pos(), "StreamUnderlay.writeOneSegment reads t.send before taking sendMutex: two sessions whose first segments race both conclude they write first (or neither does), the nonce is emitted twice or not at all and the peer's authentication fails for the whole connection")
 		}
 	})
 	// the buffer written is the one the Encrypt calls of this invocation filled
@@ -735,4 +752,71 @@ func isLenOf(v ssa.Value, f *types.Var) bool {
 	}
 	g, _ := fieldOfAddr(u.X)
 	return sameField(g, f)
+}
+
+
+// r01_11: the SOCKS5 messages exchanged over a proxy connection before it is
+// handed to the application are parsed from the connection itself. A
+// buffering reader created for one message (bufio.NewReader(conn)) swallows
+// whatever followed it in the same TCP read and is then thrown away with
+// those bytes (seed C01c).
+func r01_11(c *RC) {
+	p := c.P
+	for _, fn := range p.Funcs("apis/internal", "apis/client", "apis/server", "apis/common", "pkg/socks5", "pkg/protocol") {
+		instrs(fn, func(_ *ssa.BasicBlock, _ int, in ssa.Instruction) {
+			cl, ok := in.(ssa.CallInstruction)
+			if !ok {
+				return
+			}
+			id := calleeID(cl)
+			if strings.HasPrefix(id, "bufio.NewReader") || strings.HasPrefix(id, "bufio.NewReadWriter") || strings.HasPrefix(id, "bufio.NewScanner") {
+				// allowed only if the wrapper replaces the connection: it is stored in a struct field or returned
+				kept := false
+				if v := cl.Value(); v != nil {
+					for _, r := range *v.Referrers() {
+						switch y := r.(type) {
+						case *ssa.Store:
+							if _, isField := y.Addr.(*ssa.FieldAddr); isField {
+								kept = true
+							}
+						case *ssa.Return:
+							kept = true
+						}
+					}
+				}
+				key := "read-ahead-wrapper@" + fnName(fn)
+				if kept {
+					c.OK(key, in.Pos(), "buffered reader kept as the connection's reader")
+				} else {
+					c.Bad(key, in.Pos(), "%s wraps a connection in a throw-away %s: bytes the peer sent right after the message being parsed are read into the wrapper's buffer and lost when it is dropped", fnName(fn), strings.TrimPrefix(id, "bufio."))
+				}
+			}
+			// positive inventory: the parsers' reader arguments
+			name := calleeName(cl)
+			if (name == "ReadFromSocks5" || id == "io.ReadFull" || id == "io.ReadAtLeast") && (relPkg(fn) == "apis/internal" || relPkg(fn) == "apis/client" || relPkg(fn) == "apis/server") {
+				args := cl.Common().Args
+				var rd ssa.Value
+				if name == "ReadFromSocks5" && len(args) >= 2 {
+					rd = args[1]
+				} else if len(args) >= 1 {
+					rd = args[0]
+				}
+				if rd == nil {
+					return
+				}
+				key := "parser-reads-connection@" + fnName(fn)
+				wrapped := false
+				for _, l := range Leaves(rd, nil) {
+					if wc, ok := l.(*ssa.Call); ok && strings.HasPrefix(calleeID(wc), "bufio.") {
+						wrapped = true
+					}
+				}
+				if wrapped {
+					c.Bad(key, in.Pos(), "%s parses a handshake message through a buffering wrapper (%s)", fnName(fn), describe(rd))
+				} else {
+					c.OK(key, in.Pos(), "%s reads from %s", name, describe(rd))
+				}
+			}
+		})
+	}
 }
